@@ -49,7 +49,19 @@ def parseOpts (s : String) : List HistOpts.Opt :=
     | 'c' :: r => (String.mk r).toNat?.map .cap
     | _ => none
 
-def init (_spec : Bool) (a : List (String × String)) : WSys :=
+/-- `preload=k`: the backing store held k resources (type T1, ids a, b, version 1, spec "pre") before the first
+    call; the initial load injects each of them once, publishing Created — the same as creating them in this order. -/
+def preloadArgs (id : String) : List (String × String) :=
+  [("ns", "n1"), ("typ", "T1"), ("id", id), ("ver", "undefined"), ("owner", ""), ("phase", "running"),
+   ("fins", ""), ("labels", ""), ("c", "0"), ("u", "0"), ("spec", "pre"), ("as", "")]
+
+def preload (k : Nat) (s : WSys) : WSys :=
+  (["a", "b"].take k).foldl (fun s id =>
+    match parseOp "create" (preloadArgs id) with
+    | some o => (s.storeOpBS false 0 o).1.settle
+    | none => s) s
+
+def init0 (_spec : Bool) (a : List (String × String)) : WSys :=
   if arg a "opts" != "" then
     -- what the options make of the configuration (Cosi.Model.HistOpts, regenerated rules)
     let c := HistOpts.applyOpts (parseOpts (arg a "opts"))
@@ -57,6 +69,9 @@ def init (_spec : Bool) (a : List (String × String)) : WSys :=
   else
   { cfg := { nsAware := arg a "nsaware" != "0" },
     initCap := argNat a "initcap", maxCap := argNat a "maxcap", gap := argNat a "gap" }
+
+def init (spec : Bool) (a : List (String × String)) : WSys :=
+  preload (argNat a "preload") (init0 spec a)
 
 def parseSel (s : String) : Option (String × String) :=
   if s == "" then none else
